@@ -11,7 +11,7 @@ from vlib import boot
 from vlib.harness.runner import Result, Part, exc_signature
 from vlib.sim.core import US, MS, SimHorizon
 from vlib.sim.selftest import Raw
-from vlib.checks.linkutil import Link
+from vlib.checks.linkutil import Link, with_plus
 
 PROPERTY = "C10"
 LEVEL = "exploration"
@@ -86,7 +86,8 @@ def run_case(case, prefix=None):
     res = Result()
     drv = case.get("drv", "full")
     lite = drv == "lite"
-    lk = Link(drv, "full")
+    lk = Link(drv, "full", plus=case.get("plus", True))
+    res.label("plus-chips" if case.get("plus", True) else "nonplus-chips")
     sim, med, D, X, r = lk.sim, lk.med, lk.T, lk.R, lk.tx
     sim.spi_budget = 300_000
     x = Raw(sim, X)
@@ -447,7 +448,12 @@ def _wrapper_cases():
                 yield {"kind": "wrapper", "cls": cls, "form": form, "flags": list(fl)}
 
 
-def parts(tier):
+def _parts(tier):
     if tier == "quick":
         return [Part("interrupt_config-of-every-class", "enum", _wrapper_cases, exhaustive=True), Part("enum-words-depth3", "enum", _enum(3), exhaustive=True), Part("generated", "gen", strategy, n=4000)]
     return [Part("interrupt_config-of-every-class", "enum", _wrapper_cases, exhaustive=True), Part("enum-words-depth4", "enum", _enum(4), exhaustive=True), Part("generated", "gen", strategy, n=120000)]
+
+
+def parts(tier):
+    # the chip variant (plus / non-plus) is one more dimension of every case (linkutil.with_plus)
+    return [with_plus(p) for p in _parts(tier)]
